@@ -1650,6 +1650,14 @@ impl Tree {
 
 		// Step 2: Reload in-memory state to match restored files
 
+		// Table ids and vlog file ids of the discarded timeline will be reused for
+		// different content: nothing cached under them may survive, and the value log
+		// must write to (and read from) the restored files.
+		self.core.inner.opts.block_cache.clear();
+		if let Some(ref vlog) = self.core.inner.vlog {
+			vlog.reload()?;
+		}
+
 		// Create a new LevelManifest from the current path
 		let new_levels = LevelManifest::new(Arc::clone(&self.core.inner.opts))?;
 
